@@ -162,8 +162,11 @@ type RegexSpec struct {
 	Yes  []string
 	No   []string
 	Part []string // values that only partially match: unspecified zone
-	full *regexp.Regexp
-	part *regexp.Regexp
+	// CurlyOnly: only used in CurlyRouter tables (the expression could match a '/' when RouterJSR311 applies it to the
+	// whole path; CurlyRouter applies it to one token)
+	CurlyOnly bool
+	full      *regexp.Regexp
+	part      *regexp.Regexp
 }
 
 var Regexes = []*RegexSpec{
@@ -192,6 +195,8 @@ func init() {
 			&RegexSpec{Src: "x{" + string(rune('1'+k)) + "}[0-9]", Yes: []string{rep("x", k+1) + "5", rep("x", k+1) + "0"}, No: []string{"x5", "yyy", "_"}, Part: []string{rep("x", k+1) + "55", "a" + rep("x", k+1) + "5"}},
 		)
 	}
+	// ".*": any token (in a CurlyRouter template still exactly one token; only {v:*} is the tail wildcard)
+	Regexes = append(Regexes, &RegexSpec{Src: ".*", Yes: []string{"a", "abc", "x-y", "42", "a.b"}, CurlyOnly: true})
 	for _, r := range Regexes {
 		r.full = regexp.MustCompile("^(?:" + r.Src + ")$")
 		r.part = regexp.MustCompile(r.Src)
@@ -237,7 +242,7 @@ type SvcSpec struct {
 	ID        int         `json:"id"`
 	Root      Tmpl        `json:"-"`
 	RootS     string      `json:"root"`
-	RootStyle int         `json:"root_style,omitempty"` // 1: the root path is declared with a trailing slash ("/users/")
+	RootStyle int         `json:"root_style,omitempty"` // 1: the root path is declared with a trailing slash ("/users/"); 2 (root "/" only): WebService.Path is never called
 	Routes    []RouteSpec `json:"routes"`
 }
 
